@@ -124,6 +124,14 @@ def bases():
         ["match", 0, [V(), V(), V(), V()]],
         ["let", 2, [V(), V(), V()]],
     ]
+    # an operator form bound directly to a name (the value's temporary may be renamed to the target there)
+    for op in ("+", "-", "**", "|", "@", "<", "and"):
+        out.append(["setv", 0, [["tname", 0, []], ["op", op, [V(), V()]]]])
+        out.append(["setx", 0, [["op", op, [V(), V(), V()]]]])
+        out.append(["let", 1, [["op", op, [V(), V()]], V()]])
+    out.append(["setv", 0, [["tname", 0, []], ["call", 0, [V(), V(), V()]]]])
+    out.append(["setv", 0, [["tname", 0, []], ["list", 0, [V(), V()]]]])
+    out.append(["setv", 0, [["tname", 0, []], ["get", 0, [V(), V()]]]])
     for op in F.MATHS:
         out.append(["op", op, [V(), V()] if op in ("%", "^") else [V(), V(), V()]])
     for op in ("=", "is", "<", "<=", ">", ">="):
